@@ -148,8 +148,8 @@ PROPS = {
         "trusted": ["pep440_rs parses the literal; only its release segments reach the model"], "assumptions": [],
     },
     "C01": {
-        "lean_targets": ["Pep508.Theorems.C17b", "Pep508.Theorems.C01b", "Pep508.Theorems.C01", "Pep508.Theorems.C10", "Pep508.Theorems.NonVacuityB"],
-        "theorems": ["Pep508.C17.atom_shape", "Pep508.C17.atom_key_in_string", "Pep508.C17.atom_key_notin_string", "Pep508.C17.atom_string_in_key", "Pep508.C17.atom_string_notin_key", "Pep508.C01.layout_parses", "Pep508.C01.layout_parses_cursor", "Pep508.C01.layout_then_junk", "Pep508.C01.layout_parses_sub", "Pep508.C01.more_fuel_same", "Pep508.C01.layout_independent", "Pep508.C01.paren_transparent", "Pep508.C01.atom_key_op_string", "Pep508.C01.atom_string_op_key", "Pep508.C01.kwStop_iff", "Pep508.C01.quote_then_keyword", "Pep508.C01.keyword_glued_right", "Pep508.C01.keyword_glued_left", "Pep508.C01.expr_version", "Pep508.C01.expr_version_in", "Pep508.C01.expr_string", "Pep508.C01.expr_in", "Pep508.C01.expr_not_in",
+        "lean_targets": ["Pep508.Theorems.Tables", "Pep508.Theorems.C17b", "Pep508.Theorems.C01b", "Pep508.Theorems.C01", "Pep508.Theorems.C10", "Pep508.Theorems.NonVacuityB"],
+        "theorems": ["Pep508.Tables.string_key_order", "Pep508.Tables.version_key_order", "Pep508.Tables.key_names_agree", "Pep508.Tables.key_names_cover", "Pep508.Tables.key_reads_the_field_it_is_displayed_as", "Pep508.Tables.operator_tokens_agree", "Pep508.Tables.operator_invert_agrees", "Pep508.Tables.operator_to_pep440_agrees", "Pep508.C17.atom_shape", "Pep508.C17.atom_key_in_string", "Pep508.C17.atom_key_notin_string", "Pep508.C17.atom_string_in_key", "Pep508.C17.atom_string_notin_key", "Pep508.C01.layout_parses", "Pep508.C01.layout_parses_cursor", "Pep508.C01.layout_then_junk", "Pep508.C01.layout_parses_sub", "Pep508.C01.more_fuel_same", "Pep508.C01.layout_independent", "Pep508.C01.paren_transparent", "Pep508.C01.atom_key_op_string", "Pep508.C01.atom_string_op_key", "Pep508.C01.kwStop_iff", "Pep508.C01.quote_then_keyword", "Pep508.C01.keyword_glued_right", "Pep508.C01.keyword_glued_left", "Pep508.C01.expr_version", "Pep508.C01.expr_version_in", "Pep508.C01.expr_string", "Pep508.C01.expr_in", "Pep508.C01.expr_not_in",
                      "Pep508.C01.expr_contains", "Pep508.C01.expr_not_contains", "Pep508.C01.expr_extra", "Pep508.C01.expr_wf", "Pep508.C01.skeleton",
                      "Pep508.C01.parse_total", "Pep508.C01.inverted_string", "Pep508.C10.python_version_sem"],
         "suites": [{"name": "pyver", "args": ["C01"]}, {"name": "mparse", "args": ["C01"]}],
@@ -209,8 +209,8 @@ PROPS = {
         "trusted": ["PEP 440 specifier and URL grammars are external (pep440_rs, url)"], "assumptions": [],
     },
     "C05": {
-        "lean_targets": ["Pep508.Theorems.C05", "Pep508.Theorems.C05b", "Pep508.Theorems.NonVacuityB"],
-        "theorems": ["Pep508.C05.to_dnf_sound_norm", "Pep508.C05.collect_exact_norm", "Pep508.C05.common_term_holds_norm", "Pep508.C05.to_dnf_sound_built",
+        "lean_targets": ["Pep508.Theorems.Tables", "Pep508.Theorems.C05", "Pep508.Theorems.C05b", "Pep508.Theorems.NonVacuityB"],
+        "theorems": ["Pep508.Tables.string_key_display_agrees", "Pep508.Tables.version_key_display_agrees", "Pep508.Tables.operator_display_agrees", "Pep508.Tables.operator_negate_agrees", "Pep508.Tables.operator_negate_agrees_versions", "Pep508.C05.to_dnf_sound_norm", "Pep508.C05.collect_exact_norm", "Pep508.C05.common_term_holds_norm", "Pep508.C05.to_dnf_sound_built",
                      "Pep508.C05.built_invariants", "Pep508.C05.spelling_hypothesis_satisfiable", "Pep508.C05.old_spelling_hypothesis_unsatisfiable",
                      "Pep508.C05.display_parse_roundtrip_sep", "Pep508.C05.display_parse_roundtrip", "Pep508.C05.display_parse_roundtrip_iff",
                      "Pep508.C05.display_parse_equiv", "Pep508.C05.display_parses", "Pep508.C05.show_is_layout", "Pep508.C05.layout_wf",
@@ -290,8 +290,8 @@ PROPS = {
     },
     "C19": {
         "ext_in_quick": True,
-        "lean_targets": ["Pep508.Theorems.C08b", "Pep508.Theorems.C19", "Pep508.Theorems.C19b", "Pep508.Theorems.NonVacuityC"],
-        "theorems": ["Pep508.C08.unnamed_roundtrip_full", "Pep508.C08.unnamed_layout_full", "Pep508.C19.unnamed_no_panic", "Pep508.C19.unnamed_err_boundary", "Pep508.C19.unnamed_call_span", "Pep508.C19.scan_is_rule", "Pep508.C19.parse_unnamed_url_is_rule", "Pep508.C19.rule_is_first_stop", "Pep508.C19.token_no_ws", "Pep508.C19.ws_in_brackets", "Pep508.C19.accepts", "Pep508.C19.accepts_marker", "Pep508.C19.roundtrip", "Pep508.C19.roundtrip_marker", "Pep508.C19.bracket_ambiguity", "Pep508.C19.old_requirement_end", "Pep508.C19.archive_rule", "Pep508.C19.scheme_rule", "Pep508.C19.path_unsupported", "Pep508.C19.path_never_accepted",
+        "lean_targets": ["Pep508.Theorems.Tables", "Pep508.Theorems.C08b", "Pep508.Theorems.C19", "Pep508.Theorems.C19b", "Pep508.Theorems.NonVacuityC"],
+        "theorems": ["Pep508.Tables.archive_lists", "Pep508.Tables.archive_extensions_accepted", "Pep508.C08.unnamed_roundtrip_full", "Pep508.C08.unnamed_layout_full", "Pep508.C19.unnamed_no_panic", "Pep508.C19.unnamed_err_boundary", "Pep508.C19.unnamed_call_span", "Pep508.C19.scan_is_rule", "Pep508.C19.parse_unnamed_url_is_rule", "Pep508.C19.rule_is_first_stop", "Pep508.C19.token_no_ws", "Pep508.C19.ws_in_brackets", "Pep508.C19.accepts", "Pep508.C19.accepts_marker", "Pep508.C19.roundtrip", "Pep508.C19.roundtrip_marker", "Pep508.C19.bracket_ambiguity", "Pep508.C19.old_requirement_end", "Pep508.C19.archive_rule", "Pep508.C19.scheme_rule", "Pep508.C19.path_unsupported", "Pep508.C19.path_never_accepted",
                      "Pep508.C19.scheme_url_unsupported", "Pep508.C19.scheme_url_never_accepted", "Pep508.C19.relpath_unsupported",
                      "Pep508.C19.relpath_never_accepted", "Pep508.C19.archive_name_unsupported", "Pep508.C19.archive_name_extras_unsupported",
                      "Pep508.C19.archive_name_never_accepted", "Pep508.C19.scheme_not_a_name", "Pep508.C19.span_conventions"],
@@ -312,7 +312,7 @@ _NOTE = ("Trusted: Lean 4.33 kernel (+ propext, Classical.choice, Quot.sound, au
          "differential correspondence on generated cases (sampled, not proved); ")
 MANIFEST_TEXT = {
     "C05": {
-        "technique": "Lean 4 theorems: the model marker parser applied to the model Display of a diagram returns that diagram (display_parse_roundtrip_sep: well-formed, typed, printable, bounds separated; display_parse_equiv: an equivalent diagram without the separation condition); to_dnf is sound (to_dnf_sound_norm / _built); the quadratic simplifier preserves meaning "
+        "technique": "Lean 4 theorems: the model marker parser applied to the model Display of a diagram returns that diagram (display_parse_roundtrip_sep: well-formed, typed, printable, bounds separated; display_parse_equiv: an equivalent diagram without the separation condition); to_dnf is sound (to_dnf_sound_norm / _built); the quadratic simplifier preserves meaning  + translated tables (Display names of keys and operators, negate, regenerated from the sources on every run and proved equal to the model's by decide)"
                      "+ exact differential model of to_dnf and Display + round-trip oracle",
         "text": "display_parse_roundtrip_sep / display_parse_roundtrip_iff: parseMarkers (showMarker t) = t, via show_is_layout (the rendered text is a well-formed layout), atom_reparses (every DNF term's text parses back to the term, given an external version parser that reads what the printer prints: ExtReadsPrinted, witnessed by xRead), the parser compositionality theorem of C01b, rebuild_sound and relative canonicity (C03b). Carve-outs proved as theorems: false_text_reparses / false_not_canonical (FALSE), deprecated_key_not_identical, both_quotes_rejected. "
                 "to_dnf_sound_norm: for every well-formed typed diagram with normalised bounds (closed under the API: built_invariants), every environment and every admissible spelling the DNF denotes the marker. The Lean DNF/rendering model equals the implementation clause for clause and character for character; Display -> parse -> == and serde agreement are decided on the implementation for every pool marker.",
@@ -357,7 +357,7 @@ MANIFEST_TEXT = {
         "note": _NOTE + "url::Url::parse and the regex engine are external (the regex is re-implemented as matchVar and compared); F20's rule (parsed URL ending in `;`/`#` before a marker) is a recorded alternative resolved with the real url crate.",
     },
     "C19": {
-        "technique": "Lean 4 theorems: every path, scheme URL, relative path and archive file name (with extras / marker / leading whitespace, any environment) is rejected by the model requirement parser with the unsupported-requirement kind and never accepted; declarative specs of looks_like_archive and split_scheme; differential model on generated shapes; unnamed parser by oracle",
+        "technique": "Lean 4 theorems: every path, scheme URL, relative path and archive file name (with extras / marker / leading whitespace, any environment) is rejected by the model requirement parser with the unsupported-requirement kind and never accepted; declarative specs of looks_like_archive and split_scheme; differential model on generated shapes; unnamed parser by oracle + translated archive-extension lists (regenerated from the sources on every run and proved equal to the model's by decide)",
         "text": "path_unsupported, scheme_url_unsupported, relpath_unsupported, archive_name_unsupported(+extras) and *_never_accepted over all inputs of each shape; archive_rule / scheme_rule characterise the helper functions; every generated shape x suffix is compared between implementation and model and judged by the oracle.",
         "note": _NOTE + "both halves are theorems about the models: default feature — never a name, dedicated error kind (paths, scheme URLs, relative paths, archive names; extras / marker suffixes, leading whitespace, any environment); extension feature — the unnamed parser model never panics, errors on char boundaries, token scan = declarative rule with bracket depth, acceptance and recovery of verbatim text / extras / marker, round trip of the printed form, bracket ambiguity proved. The unnamed model is tied to the code only in the thorough tier (the default build does not compile src/unnamed.rs); building the URL value from the classified text is external.",
     },
@@ -370,7 +370,7 @@ MANIFEST_TEXT = {
     },
     "C01": {
         "technique": "Lean 4 theorems per expression form (PEP 440 / string order / substring / extra) + pointwise and/or (C02) + parser totality and dispatch inversion; "
-                     "derivation x layout oracle with an independent AST evaluator for the text level",
+                     "derivation x layout oracle with an independent AST evaluator for the text level + translated tables (key names, key -> environment field, operator tokens / invert / to_pep440, enum declaration orders regenerated from the sources on every run and proved equal to the model's by decide)",
         "text": "Each comparison form means what the PEPs say for all literals and environments; and/or skeletons are boolean (skeleton); the parser is total and inverts operands "
                 "correctly. Every whitespace layout of a marker text (and/or chains of any length, parentheses of any depth) parses to the combination of what its atoms parse to alone (layout_parses, layout_independent; keyword boundaries kwStop_iff with proved negative examples); atoms `key op 'v'` and `'v' op key` are proved to parse as dispatch says.",
         "note": _NOTE + "every atom shape (key / quoted string on either side; symbolic operator, `in`, `not in`) is proved to satisfy the layout theorem's atom hypothesis (atom_shape; the word operators need the tokenizer class to hold on the letters i / n, proved necessary); pep440 literal parsing is external.",
